@@ -1,13 +1,14 @@
 import ComposeVerif.Lemmas.TravInvS
 import ComposeVerif.Lemmas.DepGraph
 /-!
-# C13 — statements the unchanged tree falsifies (concrete witnesses)
+# C13 — statements that were / are falsified by the code (concrete witnesses)
 
-`bounded` at full strength ("never more than `n` visitors at once under `WithMaxConcurrency(n)`") is false:
-after a visitor error the coordinator leaves through `ctx.Done()` and frees its errgroup slot while the caller is
-still looping over the extremities, so `n + 1` workers fit (DESIGN §10 #12).  The witness below is replayed on the
-real `graph.InDependencyOrder` by `corpus/C13/bound-after-error.json` (oracle key `bound:max+1-after-error`).
-The provable statements are `bounded_partial` (no error yet) and `bounded_plus_one` in `Props/C13.lean`.
+**Before the repair of DESIGN §10 #12** (`fix:` commit in graph/traversal.go: the coordinator waits for `spawned`)
+`bounded` was false: after a visitor error the coordinator left through `ctx.Done()` and freed its errgroup slot while
+the caller was still looping over the extremities, so `n + 1` workers fitted.  The pre-repair rule is kept here as
+`stepPre?` (identical to `Trav.step?` except for `cCtxDone`), the witness schedule `overrun` reaches two running
+visitors under limit 1 with it, and the repaired model refuses the same schedule.  `corpus/C13/bound-after-error.json`
+replays the schedule on the real code (it must now stay within the bound).
 -/
 namespace CV.Trav
 
@@ -22,6 +23,15 @@ theorem three_ok : GraphOK three where
   pre_post := by decide
   rank := ⟨fun _ => 0, by decide⟩
 
+/-- the transition function of the code before the repair: `case <-ctx.Done(): return nil` at once -/
+def stepPre? (g : Graph) (limit : Option Nat) (s : St) : Label → Option St
+  | .cCtxDone => if s.cAlive && s.cSched.isNone && s.cancelled then some { s with cAlive := false } else none
+  | l => step? g limit s l
+
+def runLPre (g : Graph) (lim : Option Nat) (s : St) : List Label → Option St
+  | [] => some s
+  | l :: ls => (stepPre? g lim s l).bind (runLPre g lim · ls)
+
 /-- limit 1: service 0 fails and exits (cancelling the context, freeing its slot); the caller spawns 1; the coordinator
 sees `ctx.Done()` and returns (freeing the *coordinator's* slot); the caller spawns 2: two visitors run at once -/
 def overrun : List Label :=
@@ -29,20 +39,11 @@ def overrun : List Label :=
    .wBegin 0, .wReturn 0 true, .wDone 0, .wSend 0, .wExit 0,
    .spawn .M, .cCtxDone, .schedNext .M 2, .ready .M, .enter .M, .spawn .M, .wBegin 1, .wBegin 2]
 
-theorem overrun_runs_two : (runL three (some 1) (init three) overrun).map running = some 2 := by decide
+/-- pre-repair: two visitors at once under `WithMaxConcurrency(1)` -/
+theorem overrun_pre_repair_runs_two : (runLPre three (some 1) (init three) overrun).map running = some 2 := by decide
 
-/-- the full-strength bound does not hold for the model of the code as it is -/
-theorem bounded_full_false :
-    ¬ ∀ (g : Graph) (n : Nat) (s : St), GraphOK g → Reach g (some n) s → running s ≤ n := by
-  intro H
-  have h := overrun_runs_two
-  cases hr : runL three (some 1) (init three) overrun with
-  | none => rw [hr] at h; cases h
-  | some s =>
-    rw [hr] at h
-    have h2 : running s = 2 := by simpa using h
-    have := H three 1 s three_ok (reach_runL .init overrun hr)
-    omega
+/-- repaired: the coordinator cannot leave while the caller is still in its loop, the schedule is not a schedule -/
+theorem overrun_refused_after_repair : (runL three (some 1) (init three) overrun).isNone = true := by decide
 
 end CV.Trav
 
